@@ -156,7 +156,9 @@ Definition revF (es : list ent) (x t : N) : ent -> ent :=
   let es2 := map (add_members es x t) es1 in
   let persons := if existsb (fun e => in_revs x e && (ekind e =? 0)) es
                  then map eid (filter (fun e => ekind e =? 0) es) else [] in
-  fun e => recompute es2 (map eid (filter (in_revs x) es) ++ persons) (add_members es x t (rev1 x t e)).
+  let gmembers := flat_map emember (filter (fun e => in_revs x e && (ekind e =? 1)) es) in
+  fun e => recompute es2 (map eid (filter (in_revs x) es) ++ persons ++ gmembers)
+             (add_members es x t (rev1 x t e)).
 
 Lemma do_delete_eq es x t es' :
   do_delete es x t = Some es' -> live_id es x = true /\ es' = map (delF es x t) es.
@@ -168,7 +170,7 @@ Qed.
 Lemma do_revive_eq es x t es' :
   do_revive es x t = inl es' -> rec_id es x = true /\ es' = map (revF es x t) es.
 Proof.
-  unfold do_revive. destruct (rec_id es x); cbn; [|discriminate].
+  unfold do_revive, do_revive_gen. destruct (rec_id es x); cbn; [|discriminate].
   destruct (forallb _ es); cbn; [|discriminate].
   destruct (forallb _ es); cbn; [|discriminate].
   destruct (forallb _ es); cbn; [|discriminate].
@@ -177,7 +179,7 @@ Qed.
 
 Lemma do_revive_err es x t c : do_revive es x t = inr c -> c <> 0.
 Proof.
-  unfold do_revive. destruct (rec_id es x); cbn; [|intros H; inversion H; discriminate].
+  unfold do_revive, do_revive_gen. destruct (rec_id es x); cbn; [|intros H; inversion H; discriminate].
   destruct (forallb _ es); cbn; [|intros H; inversion H; discriminate].
   destruct (forallb _ es); cbn; [|intros H; inversion H; discriminate].
   destruct (forallb _ es); cbn; [|intros H; inversion H; discriminate].
@@ -198,7 +200,7 @@ Lemma step_cases R C s o t0 :
   \/ (snd (step R C s o t0) = 0 /\ C <= t /\ exists F, committed R C s t o F
       /\ fst (step R C s o t0) = mkst t (map F (ents s))).
 Proof.
-  cbn zeta. unfold step. destruct (N.ltb_spec (eff s t0) C) as [Hc|Hc].
+  cbn zeta. unfold step, step_gen. fold do_revive. destruct (N.ltb_spec (eff s t0) C) as [Hc|Hc].
   - left. cbn. split; [discriminate | reflexivity].
   - destruct o as [x|x| |].
     + destruct (do_delete (ents s) x (eff s t0)) as [es'|] eqn:E.
@@ -415,8 +417,8 @@ Qed.
 Lemma revive_needs_recycled R C s x t0 :
   rec_id (ents s) x = false -> step R C s (ORevive x) t0 = (s, if eff s t0 <? C then 4 else 1).
 Proof.
-  intros H. unfold step. destruct (eff s t0 <? C); [reflexivity|].
-  unfold do_revive. rewrite H. reflexivity.
+  intros H. unfold step, step_gen. destruct (eff s t0 <? C); [reflexivity|].
+  unfold do_revive_gen. rewrite H. reflexivity.
 Qed.
 
 (* ------------------------------------------------------------------ C/D. delete and revive, entry by entry *)
@@ -540,7 +542,7 @@ Definition winv (s : state) : Prop :=
 
 Lemma wfb_winv s : wfb s = true -> winv s.
 Proof.
-  unfold wfb, winv. rewrite andb_true_iff, forallb_forall. intros [H1 H2]. split.
+  unfold wfb, winv. rewrite !andb_true_iff, forallb_forall. intros [[H1 H2] _]. split.
   - apply nodupb_NoDup. exact H1.
   - intros e He Hs. specialize (H2 e He). rewrite Hs in H2. cbn in H2. apply N.leb_le. exact H2.
 Qed.
@@ -795,8 +797,8 @@ Lemma revive_commits R C s x t0 :
      /\ (forall g, In g (erdmo e) -> live_id (ents s) g = true)) ->
   snd (step R C s (ORevive x) t0) = 0.
 Proof.
-  intros Hc Hrec H. unfold step. destruct (N.ltb_spec (eff s t0) C) as [Hlt|_]; [lia|].
-  unfold do_revive. rewrite Hrec. cbn [negb].
+  intros Hc Hrec H. unfold step, step_gen. destruct (N.ltb_spec (eff s t0) C) as [Hlt|_]; [lia|].
+  unfold do_revive_gen. rewrite Hrec. cbn [negb].
   assert (H1 : forallb (fun e => implb (in_revs x e && edep e) (is_some (refers' e))) (ents s) = true).
   { apply forallb_forall. intros e Hin. destruct (in_revs x e) eqn:Hr; [|reflexivity].
     destruct (edep e) eqn:Hd; [|reflexivity]. cbn.
@@ -834,7 +836,7 @@ Proof.
     rewrite Hs in E2. apply is_live_eq in E1. rewrite E1 in E2. discriminate. }
   rewrite (delF_erdmo_in es x t e Hd).
   apply forallb_forall. intros g Hg.
-  destruct (is_live (est g) && memN (eid e) (emember g)) eqn:Eg; [|reflexivity]. cbn [implb].
+  destruct (lists g (eid e)) eqn:Eg; [|reflexivity]. cbn [implb].
   unfold dmo_consb in Hc. rewrite forallb_forall in Hc. specialize (Hc e Hin). rewrite E1 in Hc.
   cbn [implb] in Hc. rewrite forallb_forall in Hc. specialize (Hc g Hg). rewrite Eg in Hc. cbn [implb] in Hc.
   apply memN_In in Hc.
@@ -852,7 +854,7 @@ Lemma stash_complete_delete R C s x t0 :
   snd (step R C s (ODelete x) t0) = 0 ->
   stash_completeb (ents s) (ents (fst (step R C s (ODelete x) t0))) = true.
 Proof.
-  intros Hnd Hc Hok. unfold step in *. destruct (eff s t0 <? C); [discriminate|].
+  intros Hnd Hc Hok. unfold step, step_gen in *. destruct (eff s t0 <? C); [discriminate|].
   destruct (do_delete (ents s) x (eff s t0)) as [es'|] eqn:E; [|discriminate].
   apply do_delete_eq in E. destruct E as [_ ->]. cbn [fst ents].
   unfold stash_completeb. apply stash_walk_map; try assumption. apply incl_refl.
@@ -936,7 +938,7 @@ Proof.
       * intros Hcx. rewrite H2. unfold refers'. rewrite Hcx. reflexivity.
       * intros g Hg. split.
         -- (* the model only commits when every stashed group is live *)
-           unfold do_revive in Hr. rewrite Hrec in Hr. cbn [negb] in Hr.
+           unfold do_revive, do_revive_gen in Hr. rewrite Hrec in Hr. cbn [negb] in Hr.
            destruct (forallb _ (ents s)) in Hr; cbn [negb] in Hr; [|discriminate].
            destruct (forallb _ (ents s)) in Hr; cbn [negb] in Hr; [|discriminate].
            destruct (forallb (fun e0 => implb (in_revs x e0)
@@ -985,4 +987,248 @@ Proof.
   rewrite Forall_forall in Hf. specialize (Hf e Hin). unfold tinv in Hf. split.
   - intros a Ha. rewrite Ha in Hf. lia.
   - intros Hg. rewrite Hg in Hf. lia.
+Qed.
+
+(* ------------------------------------------------------------------ H. stored DirectMemberOf stays complete
+   (tree after 76a0ae1) and therefore every delete takes a complete stash *)
+Definition dcons (es : list ent) : Prop :=
+  forall e g, In e es -> In g es -> est e = Live -> lists g (eid e) = true -> In (eid g) (edmo e).
+
+Lemma dmo_consb_dcons es : dmo_consb es = true <-> dcons es.
+Proof.
+  unfold dmo_consb, dcons. rewrite forallb_forall. split.
+  - intros H e g He Hg Hs Hl. specialize (H e He). rewrite Hs in H. cbn [is_live implb] in H.
+    rewrite forallb_forall in H. specialize (H g Hg). rewrite Hl in H. cbn [implb] in H.
+    apply memN_In. exact H.
+  - intros H e He. destruct (est e) eqn:Es; cbn [is_live implb]; try reflexivity.
+    apply forallb_forall. intros g Hg. destruct (lists g (eid e)) eqn:Hl; cbn [implb]; [|reflexivity].
+    apply memN_In. apply H; assumption.
+Qed.
+
+Lemma lists_iff g y : lists g y = true <-> est g = Live /\ ekind g = 1 /\ In y (emember g).
+Proof.
+  unfold lists. rewrite !andb_true_iff, is_live_eq, N.eqb_eq, memN_In. tauto.
+Qed.
+
+Lemma dmo_In es y g : In g es -> lists g y = true -> In (eid g) (dmo es y).
+Proof. intros Hin Hl. unfold dmo. apply in_map. apply filter_In. tauto. Qed.
+
+Lemma emember_add es x t e0 y :
+  In y (emember (add_members es x t e0)) -> In y (emember e0) \/ In y (adds es x (eid e0)).
+Proof.
+  unfold add_members. destruct (is_live (est e0)); [|tauto].
+  destruct (adds es x (eid e0)) as [|z l] eqn:E; [tauto|]. cbn [emember]. intros H.
+  apply memN_In in H. rewrite fold_ins_mem in H. apply orb_true_iff in H.
+  destruct H as [H|H]; apply memN_In in H; tauto.
+Qed.
+
+Lemma emember_add_mono es x t e0 y :
+  In y (emember e0) -> In y (emember (add_members es x t e0)).
+Proof.
+  unfold add_members. destruct (is_live (est e0)); [|tauto].
+  destruct (adds es x (eid e0)) as [|z l] eqn:E; [tauto|]. cbn [emember]. intros H.
+  apply memN_In. rewrite fold_ins_mem. apply memN_In in H. rewrite H. apply orb_true_r.
+Qed.
+
+Lemma adds_in es x g y : In y (adds es x g) -> exists r, In r es /\ in_revs x r = true /\ eid r = y.
+Proof.
+  unfold adds. intros H. apply in_map_iff in H. destruct H as (r & He & Hin).
+  apply filter_In in Hin. destruct Hin as [Hin Hc]. apply andb_true_iff in Hc. exists r. tauto.
+Qed.
+
+Lemma purge_rec_live R t e : est (purge_rec_upd R t e) = Live -> purge_rec_upd R t e = e.
+Proof. unfold purge_rec_upd. destruct (_ && _); cbn; [discriminate | reflexivity]. Qed.
+Lemma purge_tomb_live C t e : est (purge_tomb_upd C t e) = Live -> purge_tomb_upd C t e = e.
+Proof.
+  unfold purge_tomb_upd. destruct (est e) eqn:Es; try reflexivity.
+  destruct (_ <? _); cbn; [discriminate | reflexivity].
+Qed.
+
+Lemma dcons_delete es x t :
+  NoDup (map eid es) -> dcons es -> dcons (map (delF es x t) es).
+Proof.
+  intros Hnd Hc e' g' He' Hg' Hs Hl.
+  apply in_map_iff in He'. destruct He' as (e & <- & He).
+  apply in_map_iff in Hg'. destruct Hg' as (g & <- & Hg).
+  rewrite delF_eid in *. apply lists_iff in Hl. destruct Hl as (Hgs & Hgk & Hgm).
+  assert (Hde : in_dels x e = false).
+  { destruct (in_dels x e) eqn:E; [|reflexivity]. destruct (delF_in es x t e E) as (H1 & _). congruence. }
+  assert (Hdg : in_dels x g = false).
+  { destruct (in_dels x g) eqn:E; [|reflexivity]. destruct (delF_in es x t g E) as (H1 & _). congruence. }
+  destruct (delF_out es x t e Hde) as (Hse & _). destruct (delF_out es x t g Hdg) as (Hsg & _).
+  rewrite Hse in Hs. rewrite Hsg in Hgs. rewrite delF_ekind in Hgk.
+  set (ds := map eid (filter (in_dels x) es)) in *.
+  assert (Hm : emember (delF es x t g) = rm ds (emember g)).
+  { unfold delF, del_upd. rewrite Hdg, recompute_emember, strip_emember. reflexivity. }
+  rewrite Hm in Hgm. apply rm_In in Hgm. destruct Hgm as [Hgm Hnds].
+  assert (Hold : In (eid g) (edmo e)).
+  { apply Hc; try assumption. apply lists_iff. tauto. }
+  assert (Hgnd : ~ In (eid g) ds).
+  { intros Hin. pose proof (ds_dead es x t (eid g) g Hnd Hin Hg eq_refl) as Hr. congruence. }
+  unfold delF, del_upd. rewrite Hde. fold ds. unfold recompute.
+  destruct (is_live (est (strip ds t e)) && memN (eid (strip ds t e)) _) eqn:Ec.
+  - cbn [set_dmo edmo]. rewrite strip_eid.
+    replace (eid g) with (eid (del_upd es x t ds g)).
+    + apply dmo_In; [apply in_map; exact Hg|]. apply lists_iff. unfold del_upd. rewrite Hdg.
+      rewrite strip_est, strip_ekind, strip_emember. repeat split; try assumption. apply rm_In. tauto.
+    + unfold del_upd. rewrite Hdg. apply strip_eid.
+  - rewrite strip_edmo. apply rm_In. tauto.
+Qed.
+
+Lemma dcons_revive es x t :
+  NoDup (map eid es) -> dcons es -> dcons (map (revF es x t) es).
+Proof.
+  intros Hnd Hc e' g' He' Hg' Hs Hl.
+  apply in_map_iff in He'. destruct He' as (e & <- & He).
+  apply in_map_iff in Hg'. destruct Hg' as (g & <- & Hg).
+  rewrite revF_eid in *. apply lists_iff in Hl. destruct Hl as (Hgs & Hgk & Hgm).
+  rewrite revF_ekind in Hgk.
+  set (es2 := map (add_members es x t) (map (rev1 x t) es)).
+  set (g2 := add_members es x t (rev1 x t g)).
+  set (e2 := add_members es x t (rev1 x t e)).
+  assert (Hg2s : est g2 = Live) by (unfold revF in Hgs; rewrite recompute_est in Hgs; exact Hgs).
+  assert (Hg2m : In (eid e) (emember g2)) by (unfold revF in Hgm; rewrite recompute_emember in Hgm; exact Hgm).
+  assert (Hg2id : eid g2 = eid g).
+  { unfold g2. rewrite add_members_eid. unfold rev1. destruct (in_revs x g); reflexivity. }
+  assert (Hg2k : ekind g2 = 1).
+  { unfold g2. rewrite add_members_ekind. unfold rev1. destruct (in_revs x g); exact Hgk. }
+  assert (Hnew : In (eid g) (dmo es2 (eid e))).
+  { rewrite <- Hg2id. apply dmo_In.
+    - unfold es2, g2. apply in_map. apply in_map. exact Hg.
+    - apply lists_iff. tauto. }
+  assert (He2s : est e2 = Live) by (unfold revF in Hs; rewrite recompute_est in Hs; exact Hs).
+  assert (He2id : eid e2 = eid e).
+  { unfold e2. rewrite add_members_eid. unfold rev1. destruct (in_revs x e); reflexivity. }
+  unfold revF. fold es2 e2. unfold recompute. rewrite He2s, He2id. cbn [is_live andb].
+  match goal with |- In _ (edmo (if memN (eid e) ?A then _ else _)) => set (aff := A) end.
+  destruct (memN (eid e) aff) eqn:Ea; [cbn [set_dmo edmo]; exact Hnew|].
+  apply memN_false in Ea.
+  assert (Hre : in_revs x e = false).
+  { destruct (in_revs x e) eqn:E; [|reflexivity]. exfalso. apply Ea. unfold aff.
+    apply in_or_app. left. apply in_map. apply filter_In. tauto. }
+  assert (Hnadds : forall q, ~ In (eid e) (adds es x q)).
+  { intros q Hq. apply adds_in in Hq. destruct Hq as (r & Hr & Hrr & Hid).
+    assert (r = e) by (eapply nodup_unique; eauto). subst r. congruence. }
+  assert (Hgm0 : In (eid e) (emember g)).
+  { unfold g2 in Hg2m. apply emember_add in Hg2m. destruct Hg2m as [H|H]; [|exfalso; eapply Hnadds; exact H].
+    unfold rev1 in H. destruct (in_revs x g); exact H. }
+  assert (Hrg : in_revs x g = false).
+  { destruct (in_revs x g) eqn:E; [|reflexivity]. exfalso. apply Ea. unfold aff.
+    apply in_or_app. right. apply in_or_app. right. apply in_flat_map. exists g. split; [|exact Hgm0].
+    apply filter_In. split; [exact Hg|]. rewrite E. cbn. apply N.eqb_eq. exact Hgk. }
+  assert (Hgs0 : est g = Live).
+  { unfold g2, rev1 in Hg2s. rewrite Hrg, add_members_est in Hg2s. exact Hg2s. }
+  assert (Hes0 : est e = Live).
+  { unfold e2, rev1 in He2s. rewrite Hre, add_members_est in He2s. exact He2s. }
+  unfold e2, rev1. rewrite Hre, add_members_edmo. apply Hc; try assumption. apply lists_iff. tauto.
+Qed.
+
+Lemma dcons_committed R C s t o F :
+  NoDup (map eid (ents s)) -> dcons (ents s) -> committed R C s t o F -> dcons (map F (ents s)).
+Proof.
+  intros Hnd Hc Hcom. destruct Hcom as [x Hl|x Hr|Hr|].
+  - apply dcons_delete; assumption.
+  - apply dcons_revive; assumption.
+  - intros e' g' He' Hg' Hs Hl.
+    apply in_map_iff in He'. destruct He' as (e & <- & He).
+    apply in_map_iff in Hg'. destruct Hg' as (g & <- & Hg).
+    pose proof (purge_rec_live R t e Hs) as Ee.
+    assert (Hgs : est (purge_rec_upd R t g) = Live) by (apply lists_iff in Hl; tauto).
+    pose proof (purge_rec_live R t g Hgs) as Eg. rewrite Ee, Eg in *. apply Hc; assumption.
+  - intros e' g' He' Hg' Hs Hl.
+    apply in_map_iff in He'. destruct He' as (e & <- & He).
+    apply in_map_iff in Hg'. destruct Hg' as (g & <- & Hg).
+    pose proof (purge_tomb_live C t e Hs) as Ee.
+    assert (Hgs : est (purge_tomb_upd C t g) = Live) by (apply lists_iff in Hl; tauto).
+    pose proof (purge_tomb_live C t g Hgs) as Eg. rewrite Ee, Eg in *. apply Hc; assumption.
+Qed.
+
+Definition sinv (s : state) : Prop := NoDup (map eid (ents s)) /\ dcons (ents s).
+
+Lemma sinv_step R C s o t : sinv s -> sinv (fst (step R C s o t)).
+Proof.
+  intros [Hnd Hc]. destruct (step_cases R C s o t) as [[_ ->]|(_ & _ & F & Hcom & ->)].
+  - split; assumption.
+  - split; cbn [ents].
+    + rewrite map_map. erewrite map_ext; [exact Hnd|]. intros e. apply (committed_eid _ _ _ _ _ _ _ Hcom).
+    + eapply dcons_committed; eassumption.
+Qed.
+
+Lemma sinv_run R C ops : forall s, sinv s -> sinv (run R C s ops).
+Proof.
+  induction ops as [|[o t] r IH]; intros s H; cbn [run]; [exact H|]. apply IH. apply sinv_step. exact H.
+Qed.
+
+Lemma fresh_sinv s : fresh s = true -> sinv s.
+Proof.
+  unfold fresh. rewrite !andb_true_iff. intros [[_ H1] H2]. split.
+  - apply nodupb_NoDup. exact H1.
+  - apply dmo_consb_dcons. exact H2.
+Qed.
+
+Lemma full_statement R C s0 ops x t0 :
+  fresh s0 = true ->
+  snd (step R C (run R C s0 ops) (ODelete x) t0) = 0 ->
+  stash_completeb (ents (run R C s0 ops))
+                  (ents (fst (step R C (run R C s0 ops) (ODelete x) t0))) = true.
+Proof.
+  intros Hf Hok. destruct (sinv_run R C ops s0 (fresh_sinv s0 Hf)) as [Hnd Hc].
+  apply stash_complete_delete; try assumption. apply dmo_consb_dcons. exact Hc.
+Qed.
+
+(* ---- the strict stash clause of pcheck follows from agreement as well *)
+Lemma stash_strict_model es x t e :
+  NoDup (map eid es) -> dcons es -> In e es ->
+  stash_strict (map abs es) (map abs (map (delF es x t) es)) (abs e) (abs (delF es x t e)) = true.
+Proof.
+  intros Hnd Hc Hin. unfold stash_strict. cbn [ost oid ordmo abs].
+  destruct (is_live (est e) && is_rec (est (delF es x t e))) eqn:E; [|reflexivity]. cbn [implb].
+  apply andb_true_iff in E. destruct E as [E1 E2].
+  assert (Hd : in_dels x e = true).
+  { destruct (in_dels x e) eqn:Hd; [reflexivity|]. destruct (delF_out es x t e Hd) as (Hs & _).
+    rewrite Hs in E2. apply is_live_eq in E1. rewrite E1 in E2. discriminate. }
+  rewrite (delF_erdmo_in es x t e Hd).
+  apply forallb_forall. intros go Hgo. apply in_map_iff in Hgo. destruct Hgo as (g & <- & Hg).
+  cbn [ost okind omember oid abs]. fold (lists g (eid e)).
+  destruct (lists g (eid e)) eqn:Eg; [|reflexivity]. cbn [implb]. rewrite olive_abs.
+  assert (Hold : In (eid g) (edmo e)) by (apply Hc; try assumption; apply is_live_eq; exact E1).
+  destruct (memN (eid g) (map eid (filter (in_dels x) es))) eqn:Em.
+  - apply memN_In in Em. apply orb_true_iff. right. apply negb_true_iff.
+    destruct (live_id (map (delF es x t) es) (eid g)) eqn:El; [|reflexivity].
+    apply live_id_iff in El. destruct El as (e' & Hin' & He' & Hs').
+    apply in_map_iff in Hin'. destruct Hin' as (e1 & <- & Hin1).
+    rewrite delF_eid in He'. rewrite (ds_dead es x t (eid g) e1 Hnd Em Hin1 He') in Hs'. discriminate.
+  - apply memN_false in Em. apply orb_true_iff. left. apply memN_In. apply rm_In. tauto.
+Qed.
+
+Lemma run_agree_strict R C : forall steps s,
+  sinv s -> run_agree R C s steps = true -> trace_strict (absS s) steps = true.
+Proof.
+  induction steps as [|[o t cid code post] r IH]; intros s Hw H; [reflexivity|].
+  cbn [run_agree trace_strict] in *.
+  pose proof (sinv_step R C s o t Hw) as Hw'.
+  pose proof (step_cases R C s o t) as Hcase.
+  destruct (step R C s o t) as [s' c] eqn:Est. cbn [fst snd] in *.
+  rewrite !andb_true_iff in H. destruct H as (((Hc & Hcid) & Hpost) & Hr).
+  apply N.eqb_eq in Hc. apply oents_eqb_eq in Hpost. subst code post.
+  apply andb_true_iff. split; [|apply IH; assumption].
+  destruct o as [x|x| |]; try reflexivity.
+  destruct Hcase as [[Hne ->]|(Hz & Hcc & F & Hcom & ->)].
+  - assert (Hf : (c =? 0) = false) by (apply N.eqb_neq; exact Hne). rewrite Hf. reflexivity.
+  - rewrite Hz. change (0 =? 0) with true. cbn [implb]. unfold absS. cbn [ents].
+    inversion Hcom as [x' Hl| | |]; subst. destruct Hw as [Hnd Hdc].
+    apply all2_map. intros e He. apply stash_strict_model; assumption.
+Qed.
+
+Lemma agree_pcheck c : agree c = true -> pcheck c = true.
+Proof.
+  intros H. unfold pcheck. rewrite (agree_pcore c H). cbn [andb].
+  destruct c as [R C now0 init steps]. unfold agree in H.
+  rewrite !andb_true_iff in H. destruct H as ((Hinit & Hwf) & Hrun).
+  apply oents_eqb_eq in Hinit. unfold absS in Hinit. cbn [ents] in Hinit.
+  unfold wfb in Hwf. rewrite !andb_true_iff in Hwf. destruct Hwf as [[Hnd _] Hdc]. cbn [ents] in *.
+  assert (Hs : sinv (mkst now0 (map of_obs init))).
+  { split; cbn [ents]; [apply nodupb_NoDup; exact Hnd | apply dmo_consb_dcons; exact Hdc]. }
+  pose proof (run_agree_strict R C steps _ Hs Hrun) as Ht.
+  unfold absS in Ht. cbn [ents] in Ht. rewrite Hinit in Ht. exact Ht.
 Qed.
